@@ -45,4 +45,48 @@ end Prog
 
 def sys (s : Sys) : Prog Res := .call s .ret
 
+/-! ### read-only programs
+  The producers (tar, export) only ever look at the filesystem.  They are written over the
+  read-only subset of the system calls, so that theorems about "any read-only program" apply to
+  them by construction. -/
+
+inductive RSys where
+  | lstat (p : Str)
+  | stat (p : Str)
+  | readlink (p : Str)
+  | getxattr (p : Str) (k : Str)
+  | readFile (p : Str)
+  | listTree (p : Str)
+
+def RSys.toSys : RSys → Sys
+  | .lstat p => .lstat p
+  | .stat p => .stat p
+  | .readlink p => .readlink p
+  | .getxattr p k => .getxattr p k
+  | .readFile p => .readFile p
+  | .listTree p => .listTree p
+
+inductive RProg (α : Type) where
+  | ret : α → RProg α
+  | call : RSys → (Res → RProg α) → RProg α
+
+namespace RProg
+
+def bind {α β : Type} : RProg α → (α → RProg β) → RProg β
+  | .ret a, f => f a
+  | .call s k, f => .call s (fun r => (k r).bind f)
+
+instance : Monad RProg where
+  pure := .ret
+  bind := RProg.bind
+
+/-- embedding into general programs -/
+def toProg {α : Type} : RProg α → Prog α
+  | .ret a => .ret a
+  | .call s k => .call s.toSys (fun r => (k r).toProg)
+
+end RProg
+
+def rsys (s : RSys) : RProg Res := .call s .ret
+
 end GA
